@@ -111,97 +111,103 @@ theorem prefixFrom_head (acc : α) (xs : List α) : lget (prefixFrom acc xs) 0 =
 
 end Prefix
 
-/-! ### the mass fractions and the grid -/
+/-! ### the scaled cumulative sums and the targets -/
 section Fixed
 variable {α : Type} [Inhabited α] [Field α] [LinearOrder α] [IsStrictOrderedRing α]
 
 theorem fixedPre_iff (counts : List α) (epochs : Nat) :
-    fixedPre counts epochs = true ↔
-      0 < epochs ∧ (∀ c ∈ counts, 0 ≤ c) ∧ 0 < lget (prefixFrom 0 counts) counts.length := by
-  simp [fixedPre, and_assoc]
+    fixedPre counts epochs = true ↔ 0 < epochs ∧ (∀ c ∈ counts, 0 ≤ c) := by
+  simp [fixedPre]
 
-theorem massFractions_length (counts : List α) : (massFractions counts).length = counts.length + 1 := by
-  simp [massFractions, prefixFrom_length]
+/-- the total is a member of the cumulative sums, hence non-negative -/
+theorem total_nonneg (counts : List α) (hc : ∀ c ∈ counts, 0 ≤ c) :
+    0 ≤ lget (prefixFrom 0 counts) counts.length := by
+  have hl : counts.length < (prefixFrom (0 : α) counts).length := by rw [prefixFrom_length]; omega
+  have hmem : lget (prefixFrom 0 counts) counts.length ∈ prefixFrom 0 counts := by
+    rw [lget_eq_getElem _ _ hl]; exact List.getElem_mem _
+  exact (prefixFrom_sorted 0 counts hc).2 _ hmem
 
-theorem massFractions_sorted (counts : List α) (hc : ∀ c ∈ counts, 0 ≤ c)
-    (hT : 0 < lget (prefixFrom 0 counts) counts.length) :
-    (massFractions counts).Pairwise (· ≤ ·) := by
-  unfold massFractions
+theorem scaledSums_length (counts : List α) (epochs : Nat) :
+    (scaledSums (fun n : Nat => (n : α)) counts epochs).length = counts.length + 1 := by
+  simp [scaledSums, prefixFrom_length]
+
+theorem scaledSums_sorted (counts : List α) (epochs : Nat) (hc : ∀ c ∈ counts, 0 ≤ c) :
+    (scaledSums (fun n : Nat => (n : α)) counts epochs).Pairwise (· ≤ ·) := by
+  unfold scaledSums
   refine List.Pairwise.map _ ?_ (prefixFrom_sorted 0 counts hc).1
   intro a b hab
-  exact div_le_div_of_nonneg_right hab hT.le
+  exact mul_le_mul_of_nonneg_right hab (Nat.cast_nonneg _)
 
-theorem massFractions_zero (counts : List α) (_hT : 0 < lget (prefixFrom 0 counts) counts.length) :
-    (massFractions counts)[0]'(by rw [massFractions_length]; omega) = 0 := by
+theorem scaledSums_get (counts : List α) (epochs i : Nat) (hi : i ≤ counts.length) :
+    lget (scaledSums (fun n : Nat => (n : α)) counts epochs) i
+      = lget (prefixFrom 0 counts) i * (epochs : α) := by
+  have hl : i < (prefixFrom (0 : α) counts).length := by rw [prefixFrom_length]; omega
+  simp [scaledSums, lget, hl]
+
+theorem scaledSums_zero (counts : List α) (epochs : Nat) :
+    (scaledSums (fun n : Nat => (n : α)) counts epochs)[0]'(by rw [scaledSums_length]; omega) = 0 := by
   have h0 := prefixFrom_head (0 : α) counts
   have hl : 0 < (prefixFrom (0 : α) counts).length := by rw [prefixFrom_length]; omega
   rw [lget_eq_getElem _ _ hl] at h0
-  simp [massFractions, h0]
+  simp [scaledSums, h0]
 
-theorem massFractions_le_one (counts : List α) (hc : ∀ c ∈ counts, 0 ≤ c)
-    (hT : 0 < lget (prefixFrom 0 counts) counts.length) : ∀ y ∈ massFractions counts, y ≤ 1 := by
+theorem target_nonneg (counts : List α) (hc : ∀ c ∈ counts, 0 ≤ c) (k : Nat) :
+    0 ≤ target (fun n : Nat => (n : α)) counts k :=
+  mul_nonneg (Nat.cast_nonneg _) (total_nonneg counts hc)
+
+theorem target_mono (counts : List α) (hc : ∀ c ∈ counts, 0 ≤ c) (k k' : Nat) (hk : k ≤ k') :
+    target (fun n : Nat => (n : α)) counts k ≤ target (fun n : Nat => (n : α)) counts k' := by
+  unfold target
+  have h : ((k : ℕ) : α) ≤ ((k' : ℕ) : α) := by exact_mod_cast hk
+  exact mul_le_mul_of_nonneg_right h (total_nonneg counts hc)
+
+/-- every scaled cumulative sum is at most `epochs * total` -/
+theorem scaledSums_le_last (counts : List α) (epochs : Nat) (hc : ∀ c ∈ counts, 0 ≤ c) :
+    ∀ y ∈ scaledSums (fun n : Nat => (n : α)) counts epochs,
+      y ≤ target (fun n : Nat => (n : α)) counts epochs := by
   intro y hy
   obtain ⟨x, hx, rfl⟩ := List.mem_map.mp hy
-  rw [div_le_one hT]
-  exact prefixFrom_le_last 0 counts hc x hx
+  unfold target
+  rw [mul_comm ((epochs : ℕ) : α)]
+  exact mul_le_mul_of_nonneg_right (prefixFrom_le_last 0 counts hc x hx) (Nat.cast_nonneg _)
 
-/-- in a field numba's `linspace(0, 1, epochs+1)[k]` is `k / epochs` -/
-theorem zgrid_eq (epochs k : Nat) (he : 0 < epochs) :
-    zgrid (fun n : Nat => (n : α)) epochs k = (k : α) / (epochs : α) := by
-  have he' : (epochs : α) ≠ 0 := by exact_mod_cast (Nat.pos_iff_ne_zero.mp he)
-  unfold zgrid
-  split_ifs with h
-  · subst h; field_simp
-  · field_simp; ring
-
-theorem zgrid_mono (epochs k k' : Nat) (he : 0 < epochs) (hk : k ≤ k') :
-    zgrid (fun n : Nat => (n : α)) epochs k ≤ zgrid (fun n : Nat => (n : α)) epochs k' := by
-  rw [zgrid_eq epochs k he, zgrid_eq epochs k' he]
-  have he' : (0 : α) < (epochs : α) := by exact_mod_cast he
-  apply div_le_div_of_nonneg_right _ he'.le
-  exact_mod_cast hk
-
-theorem zgrid_nonneg (epochs k : Nat) (he : 0 < epochs) :
-    0 ≤ zgrid (fun n : Nat => (n : α)) epochs k := by
-  rw [zgrid_eq epochs k he]
-  positivity
-
-/-- the raw index is at least 1 entry: `Z[0] = 0 ≤ z` -/
-theorem searchRight_pos (counts : List α) (z : α) (hz : 0 ≤ z) (hc : ∀ c ∈ counts, 0 ≤ c)
-    (hT : 0 < lget (prefixFrom 0 counts) counts.length) : 0 < searchRight (massFractions counts) z := by
+theorem searchRight_pos (counts : List α) (epochs : Nat) (z : α) (hz : 0 ≤ z)
+    (hc : ∀ c ∈ counts, 0 ≤ c) :
+    0 < searchRight (scaledSums (fun n : Nat => (n : α)) counts epochs) z := by
   unfold searchRight
-  rw [← count_le_iff _ z (massFractions_sorted counts hc hT) 0 (by rw [massFractions_length]; omega),
-    massFractions_zero counts hT]
+  rw [← count_le_iff _ z (scaledSums_sorted counts epochs hc) 0 (by rw [scaledSums_length]; omega),
+    scaledSums_zero counts epochs]
   exact hz
 
-theorem searchRight_le (counts : List α) (z : α) :
-    searchRight (massFractions counts) z ≤ counts.length + 1 := by
+theorem searchRight_le (counts : List α) (epochs : Nat) (z : α) :
+    searchRight (scaledSums (fun n : Nat => (n : α)) counts epochs) z ≤ counts.length + 1 := by
   unfold searchRight
-  rw [← massFractions_length counts]
+  rw [← scaledSums_length counts epochs]
   exact List.countP_le_length
 
-/-- **`searchsorted(Z, z, "right") - 1` is the last index with `Z[i] ≤ z`.** -/
-theorem fixedRaw_last (counts : List α) (z : α) (hz : 0 ≤ z) (hc : ∀ c ∈ counts, 0 ≤ c)
-    (hT : 0 < lget (prefixFrom 0 counts) counts.length) :
-    let i := searchRight (massFractions counts) z - 1
-    i ≤ counts.length ∧ lget (massFractions counts) i ≤ z ∧
-      ∀ i', i < i' → i' ≤ counts.length → z < lget (massFractions counts) i' := by
+/-- **`searchsorted(Y * epochs, z, "right") - 1` is the last index with `Y[i] * epochs ≤ z`.** -/
+theorem fixedRaw_last (counts : List α) (epochs : Nat) (z : α) (hz : 0 ≤ z) (hc : ∀ c ∈ counts, 0 ≤ c) :
+    let i := searchRight (scaledSums (fun n : Nat => (n : α)) counts epochs) z - 1
+    i ≤ counts.length ∧ lget (scaledSums (fun n : Nat => (n : α)) counts epochs) i ≤ z ∧
+      ∀ i', i < i' → i' ≤ counts.length →
+        z < lget (scaledSums (fun n : Nat => (n : α)) counts epochs) i' := by
   intro i
-  have hpos := searchRight_pos counts z hz hc hT
-  have hle := searchRight_le counts z
-  have hs := massFractions_sorted counts hc hT
-  have hlen := massFractions_length counts
-  have hi : i < (massFractions counts).length := by rw [hlen]; omega
+  have hpos := searchRight_pos counts epochs z hz hc
+  have hle := searchRight_le counts epochs z
+  have hs := scaledSums_sorted counts epochs hc
+  have hlen := scaledSums_length counts epochs
+  have hi : i < (scaledSums (fun n : Nat => (n : α)) counts epochs).length := by rw [hlen]; omega
   refine ⟨by omega, ?_, ?_⟩
   · rw [lget_eq_getElem _ _ hi, count_le_iff _ z hs i hi]
-    show searchRight (massFractions counts) z - 1 < searchRight (massFractions counts) z
+    show searchRight (scaledSums (fun n : Nat => (n : α)) counts epochs) z - 1
+      < searchRight (scaledSums (fun n : Nat => (n : α)) counts epochs) z
     omega
   · intro i' hii' hi'n
-    have hi' : i' < (massFractions counts).length := by rw [hlen]; omega
+    have hi' : i' < (scaledSums (fun n : Nat => (n : α)) counts epochs).length := by rw [hlen]; omega
     rw [lget_eq_getElem _ _ hi']
     by_contra hcon
     have := (count_le_iff _ z hs i' hi').mp (not_lt.mp hcon)
-    have : i' < searchRight (massFractions counts) z := this
+    have : i' < searchRight (scaledSums (fun n : Nat => (n : α)) counts epochs) z := this
     omega
 
 end Fixed
